@@ -287,7 +287,7 @@ func (g *seqGen) genOp() seqOp {
 		g.next += 2 * g.cfg.NK // bulk values are op.V + key (+ NK for the second loader invocation of the call)
 		op.Ks = g.keys()
 		op.Supply = g.supply(op.Ks)
-		op.Shape = pick(g.rng, "map", "map", "map", "map", "nil", "err")
+		op.Shape = pick(g.rng, "map", "map", "map", "map", "nil", "err", "errnf")
 		if g.rng.Intn(30) == 0 {
 			op.Shape = "panic"
 		}
